@@ -86,6 +86,7 @@ type Link struct {
 	sem       [2]chan struct{}
 	Tap       *Tap
 	Serialise bool
+	Eager     bool // writes do not consult ctx unless they have to wait
 	A, B      *End
 	killed    chan struct{}
 	killOnce  sync.Once
@@ -224,14 +225,25 @@ func (e *End) Write(ctx context.Context, rpc *Rpc) error {
 		return ErrKill
 	default:
 	}
-	select {
-	case sem <- struct{}{}:
-	case <-ctx.Done():
-		return ctx.Err()
-	case <-e.wfail:
-		return ErrWrite
-	case <-e.l.killed:
-		return ErrKill
+	got := false
+	if e.l.Eager {
+		// a transport that does not look at ctx unless it has to wait (e.g. a buffered writer)
+		select {
+		case sem <- struct{}{}:
+			got = true
+		default:
+		}
+	}
+	if !got {
+		select {
+		case sem <- struct{}{}:
+		case <-ctx.Done():
+			return ctx.Err()
+		case <-e.wfail:
+			return ErrWrite
+		case <-e.l.killed:
+			return ErrKill
+		}
 	}
 	e.mu.Lock()
 	idx := e.writes
@@ -262,6 +274,18 @@ func (e *End) Write(ctx context.Context, rpc *Rpc) error {
 	}
 	rec := e.l.Tap.add(dir, rpc)
 	var err error
+	if e.l.Eager {
+		select {
+		case e.l.ch[dir] <- msg:
+			n := e.l.Tap.markDelivered(rec)
+			<-sem
+			if cb := e.l.Tap.OnDelivered; cb != nil {
+				cb(n, rec)
+			}
+			return nil
+		default:
+		}
+	}
 	select {
 	case e.l.ch[dir] <- msg:
 	case <-ctx.Done():
